@@ -658,14 +658,23 @@ class EXXSphGenerator:
         has_l1 = self.has_l1
         nalpha = self.plan.nalpha
         deriv = self.deriv
-        cao = eval_conv_ao(
-            self.plan, mol, coords, deriv=deriv, non0tab=None, cutoff=cutoff, out=buf
-        )
-        ao = eval_ao(mol, coords, deriv=0, non0tab=non0tab, cutoff=cutoff, out=buf)
         if has_l1:
             ncpa = 4
         else:
             ncpa = 1
+        # The convolved orbitals and the plain orbitals must not share memory:
+        # buf holds the convolved orbitals, and the plain orbitals only use
+        # the remainder of buf if it is large enough for both.
+        aobuf = None
+        if buf is not None:
+            caosize = mol.nao_nr() * coords.shape[0] * ncpa * nalpha
+            aosize = mol.nao_nr() * coords.shape[0]
+            if buf.ndim == 1 and buf.size >= caosize + aosize:
+                aobuf = buf[caosize : caosize + aosize]
+        cao = eval_conv_ao(
+            self.plan, mol, coords, deriv=deriv, non0tab=None, cutoff=cutoff, out=buf
+        )
+        ao = eval_ao(mol, coords, deriv=0, non0tab=non0tab, cutoff=cutoff, out=aobuf)
         n0 = self.plan.num_l0_feat
         shls_slice = (0, mol.nbas)
         ao_loc = mol.ao_loc_nr()
